@@ -6,7 +6,7 @@
   OBLIGATIONS (checked against `Genshi/Audit.lean` by the harness):
     escapePy_eq_spec escapeC_eq_spec escapeC_eq_escapePy escapeC_len_exact
     escC_identity_iff escape_safe_id escape_append unescape_escape
-    escape_no_raw add_safe_once radd_safe_once join_safe_once mod_safe_once
+    escape_no_raw escape_output_wf add_safe_once radd_safe_once join_safe_once mod_safe_once
     mul_spec attrs_or_keeps_order attrs_or_none_removed attrs_or_nodup
     attrs_or_dup_repaired attrs_sub_spec attrs_or_replaces
 -/
@@ -83,6 +83,27 @@ theorem escape_no_raw (q : Bool) (s : List Char) :
   · simp only [List.mem_flatMap, not_exists, not_and]; intro c _; exact (key c).1
   · simp only [List.mem_flatMap, not_exists, not_and]; intro c _; exact (key c).2.1
   · intro hq; simp only [List.mem_flatMap, not_exists, not_and]; intro c _; exact (key c).2.2 hq
+
+/-- Escaped text is well formed for a reader: no raw `<`/`>`, and every `&` begins one of
+    the four entities written by `escape`. -/
+theorem escape_output_wf (q : Bool) (s : List Char) : entWf 0 (escapePy q s) = true := by
+  rw [Genshi.Escape.escapePy_eq_spec]
+  unfold escapeSpec
+  induction s with
+  | nil => simp [entWf]
+  | cons c cs ih =>
+    simp only [List.flatMap_cons]
+    by_cases h1 : c = '&'
+    · subst h1; simp [escC, amp, entWf, List.isPrefixOf, ih]
+    by_cases h2 : c = '<'
+    · subst h2; simp [escC, lt, amp, entWf, List.isPrefixOf, ih]
+    by_cases h3 : c = '>'
+    · subst h3; simp [escC, gt, lt, amp, entWf, List.isPrefixOf, ih]
+    by_cases h4 : c = '"'
+    · subst h4; cases q
+      · simp [escC, entWf, ih]
+      · simp [escC, qt, gt, lt, amp, entWf, List.isPrefixOf, ih]
+    · simp [escC, h1, h2, h3, h4, entWf, ih]
 
 /-- what the algebra says an operand contributes: escaped once iff not safe -/
 def once (q : Bool) : Opnd → List Char
